@@ -304,6 +304,13 @@ def parseRel (w : String) : Option Rel :=
   else if w = "<=" ∨ w = "le" then some .le
   else none
 
+/-- the member name in `wntr.network.controls.Comparison` -/
+def Rel.name : Rel → String
+  | .gt => "gt" | .ge => "ge" | .lt => "lt" | .le => "le" | .eq => "eq" | .ne => "ne"
+
+def relOfName (n : String) : Option Rel :=
+  [Rel.gt, .ge, .lt, .le, .eq, .ne].find? fun r => r.name == n
+
 def nodeClasses : List String := ["node", "junction", "reservoir", "tank"]
 def linkClasses : List String := ["link", "pipe", "pump", "valve"]
 
@@ -368,6 +375,10 @@ def parseRAction : List Tok → Option RAction
 inductive Kw where
   | if_ | and_ | or_ | then_ | else_ | priority
   deriving Repr, DecidableEq, Inhabited
+
+/-- the keyword as the writer prints it (upper case; the parser compares `word.upper()`) -/
+def Kw.word : Kw → String
+  | .if_ => "IF" | .and_ => "AND" | .or_ => "OR" | .then_ => "THEN" | .else_ => "ELSE" | .priority => "PRIORITY"
 
 def Conj.kw : Conj → Kw
   | .if_ => .if_
